@@ -455,6 +455,57 @@ def e2e(ctx, rng, gs, n_reps):
                           "a row of the multi-direction estimate differs from enumerating the pairs of that direction",
                           dict(entry="vario_estimate", est=est, tol=tol, bw=bw, style=style, arrays=describe(f, edges, pos, dirs),
                                expected_counts=bcnt.tolist(), got_counts=c.tolist()), key="vario_estimate:direction-set")
+    # great-circle distance: explicit bins in any length unit (geo_scale) and the documented default bins
+    # (Sturges bin count, a third of the great-circle bounding-box diameter) must give the pair enumeration
+    for rep in range(6 * n_reps):
+        n = int(rng.choice([5, 9, 14]))
+        span = float(rng.choice([2.0, 20.0, 80.0]))
+        lat = rng.uniform(-span, span, size=n)
+        lon = rng.uniform(-2 * span, 2 * span, size=n)
+        pos = np.array([lat, lon])
+        nf = int(rng.integers(1, 3))
+        f = rng.normal(size=(nf, n))
+        if rng.random() < 0.3:
+            f[rng.random(size=f.shape) < 0.15] = np.nan
+        gsc = [1.0, float(gs.KM_SCALE), float(gs.DEGREE_SCALE), float(rng.uniform(0.3, 40.0))][int(rng.integers(4))]
+        mode = ["explicit", "default", "bin_no", "max_dist", "both"][int(rng.integers(5))]
+        est = "matheron" if rng.random() < 0.6 else "cressie"
+        # independent computation of the documented default binning
+        keep = ~np.isnan(f).all(axis=0)          # points missing in every field count as removed
+        la, lo = np.deg2rad(lat[keep]), np.deg2rad(lon[keep])
+        xyz = np.array([np.cos(la) * np.cos(lo), np.cos(la) * np.sin(lo), np.sin(la)])
+        chord = np.sqrt(((xyz.max(axis=1) - xyz.min(axis=1)) ** 2).sum())
+        diam = 2 * np.arcsin(min(chord / 2, 1.0)) * gsc
+        kw = {}
+        nb = int(np.ceil(2 * np.log2(int(keep.sum())) + 1)); md = diam / 3
+        if mode in ("bin_no", "both"):
+            nb = int(rng.integers(2, 7)); kw["bin_no"] = nb
+        if mode in ("max_dist", "both"):
+            md = float(rng.uniform(0.3, 0.9)) * diam; kw["max_dist"] = md
+        if mode == "explicit":
+            edges = gen_edges(rng, int(rng.integers(2, 5)), first_zero=bool(rng.random() < 0.5)) * (diam / 5.0)
+            args = (edges.copy(),)
+        else:
+            edges = np.linspace(0, md, nb + 1)
+            args = ()
+        ctx.count(("e2e-latlon", n, nf, est, mode, gsc in (1.0,)), hist=dict(entry="vario_estimate-latlon", mode=mode, geo_scale=round(gsc, 3)))
+        case = dict(entry="vario_estimate", latlon=True, geo_scale=gsc, mode=mode, est=est, kw=kw, arrays=describe(f, edges, pos))
+        try:
+            bc_, g, c = gs.vario_estimate(tuple(pos), f if nf > 1 else f[0], *args, estimator=est, latlon=True, geo_scale=gsc,
+                                          return_counts=True, **kw)
+        except Exception as e:
+            ctx.violation("probe: lat-lon vario_estimate raised", repr(e), case, key="vario_estimate:latlon-exception")
+            continue
+        bg, bcnt = brute_unstructured(f, edges / gsc, pos, est[0], dist="h")
+        ok_bins = len(bc_) == len(edges) - 1 and rel_close(bc_, (edges[:-1] + edges[1:]) / 2)
+        if not ok_bins:
+            ctx.violation("probe: lat-lon vario_estimate bin centres vs documented binning",
+                          "returned bin centres are not the centres of the given / documented default bins (unit: geo_scale)",
+                          dict(case, expected_centres=((edges[:-1] + edges[1:]) / 2).tolist(), got=np.asarray(bc_).tolist()), key="vario_estimate:latlon-bins:" + mode)
+        elif not ((bcnt == c).all() and rel_close(bg, g)) and not near_edge(pos, edges / gsc, "h", eps=1e-9):
+            ctx.violation("probe: lat-lon vario_estimate vs great-circle pair enumeration",
+                          "great-circle variogram differs from enumerating the pairs with haversine distance * geo_scale",
+                          dict(case, expected_counts=bcnt.tolist(), got_counts=np.asarray(c).tolist()), key="vario_estimate:latlon:" + mode)
     # the `angles` argument (2-D azimuth, 3-D azimuth + inclination)
     for rep in range(2 * n_reps):
         dim = int(rng.integers(2, 4))
